@@ -290,7 +290,7 @@ def r_auto_guard(ctx: RuleCtx, col: Collector):
             col.bad(where_of(f), f.rel, line_of(nd.ast), construct,
                     "auto_determine_solver returns something that is not a solver constructor")
             continue
-        facts = guard_facts(cfg, nd)
+        facts = [(_canon_pred(f, t), pol) for t, pol in guard_facts(cfg, nd)]
         # facts about assigned flags also count when the flag was assigned the test text (ispositivedefinite = <test>)
         fd = {}
         for t, pol in facts:
@@ -336,6 +336,29 @@ def r_auto_guard(ctx: RuleCtx, col: Collector):
                 "a path reaches the end of auto_determine_solver without returning a solver")
     else:
         col.ok(where_of(f), f.rel, line_of(f.node), "auto_determine_solver: every path returns a solver", f"{n_ret} returns")
+
+
+def _canon_pred(f: FuncInfo, text: str) -> str:
+    """Canonical name of a guard predicate: a local that is defined (only) by a recognisable classification of the
+    matrix is named after that classification, whatever the local is called."""
+    if not text.isidentifier() or text in f.pos_params():
+        return text
+    defs = [n.value for n in ast.walk(f.node) if isinstance(n, ast.Assign) and any(
+        isinstance(t, ast.Name) and t.id == text for t in n.targets)]
+    tags = set()
+    for d in defs:
+        t = norm(d)
+        if "matrix_is_sparse(" in t or "issparse(" in t:
+            tags.add("issparse")
+        elif ".shape[0]==" in t and ".shape[1]" in t:
+            tags.add("issquare")
+        elif "iscomplexobj(" in t or "matrix_is_complex(" in t:
+            tags.add("iscomplex")
+        elif "matrix_is_diagonal(" in t:
+            tags.add("isdiagonal")
+        else:
+            tags.add(text)
+    return tags.pop() if len(tags) == 1 else text
 
 
 def _flag_defined_by_definite_diag(f: FuncInfo, name: str) -> bool:
@@ -853,6 +876,9 @@ def _pattern_level(m, f: FuncInfo, cls, e: ast.AST, aparam: str, du=None, seen=N
 # ------------------------------------------------------------------------------------------------ return shape
 def _ndim1_test(test: ast.AST) -> Optional[Tuple[str, bool]]:
     """(array name, polarity): test is true iff <name>.ndim == 1 (polarity True) / != 1 or > 1 (False)."""
+    if isinstance(test, ast.UnaryOp) and isinstance(test.op, ast.Not):
+        r = _ndim1_test(test.operand)
+        return (r[0], not r[1]) if r else None
     if isinstance(test, ast.Compare) and len(test.ops) == 1 and isinstance(test.left, ast.Attribute) and \
             test.left.attr == "ndim" and isinstance(test.left.value, ast.Name) and isinstance(test.comparators[0], ast.Constant):
         c = test.comparators[0].value
@@ -902,6 +928,19 @@ def r_ret_shape(ctx: RuleCtx, col: Collector):
                 p = getattr(p, "_parent", None)
         if not lifted:
             continue
+        # a local shaped like a lifted parameter (zeros_like(rhs) / a copy of a guess) that is lifted under its own
+        # `<local>.ndim == 1` test is lifted from that parameter as well
+        for n2 in ast.walk(f.node):
+            if isinstance(n2, ast.If):
+                r = _ndim1_test(n2.test)
+                if r and r[0] not in params and r[1]:
+                    defs = [x.value for x in ast.walk(f.node) if isinstance(x, ast.Assign) and any(
+                        isinstance(t, ast.Name) and t.id == r[0] for t in x.targets)]
+                    srcs = {y.id for d in defs for y in ast.walk(d) if isinstance(y, ast.Name)} & set(lifted.values())
+                    for st in n2.body:
+                        if isinstance(st, ast.Assign) and isinstance(st.targets[0], ast.Name) and srcs and \
+                                any(k in norm(st.value) for k in ("reshape(", ",1)", "[:,None]")):
+                            lifted[st.targets[0].id] = sorted(srcs)[0]
         # names derived from a lifted array that are returned: the returned names
         for nd in cfg.simple_nodes():
             if nd.kind != STMT or not isinstance(nd.ast, ast.Return) or nd.ast.value is None:
@@ -947,7 +986,7 @@ def r_ret_shape(ctx: RuleCtx, col: Collector):
                             any(k in norm(n2.value) for k in ("zeros_like", "copy()", "zeros(")):
                         derived.add(n2.targets[0].id)
                         changed = True
-            if not (names & derived) and not any(s in names for s in ("x", "sol")):
+            if not (names & derived):
                 continue
             if ok:
                 col.ok(where_of(f), f.rel, line_of(nd.ast), construct, f"1-D lift of '{sorted(src)[0]}' undone under the same test")
